@@ -16,8 +16,8 @@ import (
 	"verif/e1"
 	"verif/tnet"
 	"verif/vm"
-	vtime "verif/vm/vtime"
 	vnet "verif/vm/vnet"
+	vtime "verif/vm/vtime"
 )
 
 const addr = "127.0.0.1:9000"
@@ -33,13 +33,14 @@ type conf struct {
 	writeMs int    // client write (enqueue) timeout ms
 	queue   int    // client queue length (0: default)
 	stagger int    // ms between the callers' start times
+	objMax  int32  // ObjQueueMax (0: default): calls beyond it are rejected at once
 }
 
 func scenario(c conf) *vm.Scenario {
 	sc := &vm.Scenario{Name: c.name, MaxSteps: 500000}
 	sc.Main = func() {
 		opts := tars.VerifClientOpts{ReadTimeout: 500 * time.Millisecond, CheckStatusInterval: 60000,
-			DialTimeout: time.Duration(c.dialMs) * time.Millisecond, WriteTimeout: time.Duration(c.writeMs) * time.Millisecond, QueueLen: c.queue}
+			DialTimeout: time.Duration(c.dialMs) * time.Millisecond, WriteTimeout: time.Duration(c.writeMs) * time.Millisecond, QueueLen: c.queue, ObjQueueMax: c.objMax}
 		if c.src == "config" {
 			opts.AsyncInvokeTimeout = c.timeout
 		} else {
@@ -218,7 +219,7 @@ func check(c conf, r *vm.Result) string {
 			if kind == "ok" && c.peer != "ok" {
 				msgs = append(msgs, "call-succeeded-without-a-valid-reply:"+c.peer)
 			}
-			if kind != "ok" && c.peer == "ok" {
+			if kind != "ok" && c.peer == "ok" && !(c.objMax > 0 && strings.Contains(o, "invoke queue is full")) {
 				msgs = append(msgs, "call-failed-although-server-answered\n"+o)
 			}
 		}
@@ -278,6 +279,12 @@ func main() {
 	// several callers while the dial hangs / is refused
 	for _, p := range []string{"blackhole", "refuse", "silent"} {
 		add(conf{peer: p, src: "config", callers: 3, timeout: 400, dialMs: 300, writeMs: 1000}, 0, false)
+	}
+	// more concurrent callers than the per-object in-flight limit: the surplus is rejected at once,
+	// and nothing may be left behind by the rejected calls either
+	for _, p := range []string{"silent", "ok", "late"} {
+		add(conf{name: "objmax", peer: p, src: "config", callers: 5, timeout: 400, dialMs: 300, writeMs: 1000, objMax: 2}, 0, false)
+		add(conf{name: "objmax", peer: p, src: "config", callers: 4, timeout: 400, dialMs: 300, writeMs: 1000, objMax: 1, stagger: 10}, 1, false)
 	}
 	// writer blocked by a zero window, tiny queue: the enqueue timeout rules
 	add(conf{peer: "blocked-writer", src: "config", callers: 4, timeout: 400, dialMs: 300, writeMs: 1000, queue: 1}, 0, false)
